@@ -6,7 +6,7 @@
                                     demonstration fails with it and passes without it
   seedtool.py detect <dir> [...]    apply the patch to /repo, run the quick check of the targeted
                                     property (and any extra ones named in meta.json "also"), undo it
-  seedtool.py pdetect [--all] [--workers=N] <dir> [...]
+  seedtool.py pdetect [--all] [--workers=N] [--frozen] <dir> [...]   (--frozen: from a snapshot of HEAD)
                                     the same detection in scratch copies (worktree of /repo + copy of /verif whose
                                     harness points at it), N seeds in parallel; --all runs every property's check
   seedtool.py table                 print the detection table from the recorded results
@@ -123,7 +123,7 @@ def detect(d, extra_props=None, tier="quick"):
 
 
 def _worker_dir(w):
-    return "%s%d" % (os.environ.get("STUNMON_WORKER_PREFIX", "/tmp/stunmon-seed-w"), w)
+    return "%s%s" % (os.environ.get("STUNMON_WORKER_PREFIX", "/tmp/stunmon-seed-w"), w)
 
 
 def pdetect_one(w, d, props, tier):
@@ -139,7 +139,7 @@ def pdetect_one(w, d, props, tier):
             return {"error": out[-300:]}
     sh(["git", "-C", repo_w, "checkout", "-q", "--detach", subprocess.run(["git", "-C", REPO, "rev-parse", "HEAD"], stdout=subprocess.PIPE, text=True).stdout.strip()])
     sh(["git", "-C", repo_w, "checkout", "--", "."])
-    sh(["rsync", "-a", "--delete", "--exclude", ".git", "--exclude", "target", "--exclude", "evidence", "--exclude", "seeded", HERE + "/", verif_w + "/"])
+    sh(["rsync", "-a", "--delete", "--exclude", ".git", "--exclude", "target", "--exclude", "evidence", "--exclude", "seeded", SRC[0] + "/", verif_w + "/"])
     ct = os.path.join(verif_w, "harness", "Cargo.toml")
     txt = open(ct).read().replace("/repo/", repo_w + "/")
     open(ct, "w").write(txt)
@@ -157,6 +157,21 @@ def pdetect_one(w, d, props, tier):
                   "inconclusive": [l[:300] for l in out.splitlines() if l.startswith("INCONCLUSIVE")][:3]}
     sh(["git", "-C", repo_w, "checkout", "--", "."])
     return det
+
+
+SRC = [HERE]
+FROZEN_COMMIT = [None]
+
+
+def freeze():
+    """Work from a snapshot of /verif's HEAD (under the worker prefix) instead of the live tree, so
+    that the harness can be edited while a long detection run is going."""
+    dst = _worker_dir("frozen")
+    sh(["rm", "-rf", dst])
+    os.makedirs(dst)
+    subprocess.run("git -C %s archive HEAD | tar -x -C %s" % (HERE, dst), shell=True, check=True)
+    SRC[0] = dst
+    FROZEN_COMMIT[0] = subprocess.run(["git", "-C", HERE, "rev-parse", "--short", "HEAD"], stdout=subprocess.PIPE, text=True).stdout.strip()
 
 
 def pdetect(dirs, nworkers, which, tier="quick"):
@@ -182,7 +197,7 @@ def pdetect(dirs, nworkers, which, tier="quick"):
                 return
             m = load_meta(d)
             m["detection"] = {"at": time.strftime("%Y-%m-%d %H:%M:%S"), "tier": tier, "mode": "scratch copy (seedtool pdetect)",
-                              "verif_commit": subprocess.run(["git", "-C", HERE, "rev-parse", "--short", "HEAD"], stdout=subprocess.PIPE, text=True).stdout.strip() + "+wip",
+                              "verif_commit": FROZEN_COMMIT[0] or (subprocess.run(["git", "-C", HERE, "rev-parse", "--short", "HEAD"], stdout=subprocess.PIPE, text=True).stdout.strip() + "+wip"),
                               "checks": det}
             save_meta(d, m)
             fired = [p for p, r in det.items() if r["fired"]]
@@ -263,8 +278,12 @@ def main():
                 which = "all"
             elif args[0].startswith("--workers="):
                 nworkers = int(args[0].split("=")[1])
+            elif args[0] == "--frozen":
+                freeze()
             args = args[1:]
         pdetect(args, nworkers, which)
+        if SRC[0] != HERE:
+            sh(["rm", "-rf", SRC[0]])
         return 0
     if cmd == "table":
         table(write="--write" in sys.argv[2:])
